@@ -1228,6 +1228,9 @@ func (s Subtitles) WriteToSSA(o io.Writer) (err error) {
 		var styles = make(map[string]*ssaStyle)
 		var styleNames []string
 		for _, s := range s.Styles {
+			if s == nil {
+				continue
+			}
 			var ss = newSSAStyleFromStyle(*s)
 			styles[ss.name] = ss
 			styleNames = append(styleNames, ss.name)
